@@ -823,13 +823,19 @@ def parse_pairs(out):
 
 def model_check(ctx, tag, cases, chunk=100):
     """cases: list of (cops, trace). returns list of (case index, op index) where the model differs"""
-    bad = []
-    for ci in range(0, len(cases), chunk):
+    from concurrent.futures import ThreadPoolExecutor
+
+    def one(ci):
         part = cases[ci:ci + chunk]
         txt = CASES_HEADER + "Definition cases : list ccase :=\n[" + \
             ";\n".join(c_case(c, t) for c, t in part) + "].\nEval vm_compute in (cfailing cases).\n"
         ok, out = ctx.coq_eval(f"c18_{tag}_{ci}", txt)
-        res = parse_pairs(out) if ok else None
+        return ci, (parse_pairs(out) if ok else None), out
+    starts = list(range(0, len(cases), chunk))
+    with ThreadPoolExecutor(max_workers=3) as ex:
+        results = list(ex.map(one, starts))
+    bad = []
+    for ci, res, out in results:
         if res is None:
             ctx.add_broken("broken-correspondence", f"c18_{tag}_{ci}", "model evaluation failed:\n" + out[-1500:])
             return None
@@ -1476,16 +1482,25 @@ def run_scenario(ops, stats=None):
                 except Skip:
                     pass
         x2 = w2.objs[xi]
-        with warnings.catch_warnings():
-            warnings.simplefilter("ignore")
-            for name, val in kw["attrs"]:
-                setattr(x2, name, attr_value(name, val))
+        try:
+            with warnings.catch_warnings():
+                warnings.simplefilter("ignore")
+                for name, val in kw["attrs"]:
+                    setattr(x2, name, attr_value(name, val))
+        except Exception:      # pylint: disable=broad-except
+            if stats is not None:
+                stats["override-rejected-by-setter"] = stats.get("override-rejected-by-setter", 0) + 1
+            return None          # the setter itself rejects this value: copy(**kw) may raise as well
     # ---------------- the copy
     try:
         with warnings.catch_warnings():
             warnings.simplefilter("ignore")
             y = x.copy(**w.copy_kwargs(kw))
     except Exception as e:      # pylint: disable=broad-except
+        if X0[xi][1][1] == "" and "label" not in (kw.get("kw") or {}) and "label" not in (kw.get("dict") or {}):
+            raise Fail("label", cls, f"empty-raises-{type(e).__name__}",
+                       f"{cls}.copy() of an object whose style label is the empty string raises "
+                       f"{type(e).__name__}: {e}") from e
         raise Fail("equal_values", cls, f"{trig}-raises-{type(e).__name__}",
                    f"{cls}.copy({', '.join(names)}) raises {type(e).__name__}: {e}") from e
     # (a) same class, isomorphic subtree
@@ -1681,6 +1696,15 @@ def op_name(op):
     return op["op"]
 
 
+def _probe(sm, label):
+    return [{"op": "new", "cls": "Sensor", "args": {"pixel": [0, 0, 0]}, "sm": sm,
+             "style": {"kw": {"label": label}, "dict": None}}, {"op": "copy", "x": 0, "kw": {}}]
+
+
+# corners the random generator does not produce; run on every check
+FIXED_PROBES = [_probe(1, ""), _probe(2, ""), _probe(1, "x9"), _probe(2, "col1"), _probe(1, "a_"), _probe(2, "a_01")]
+
+
 def random_scenario(rng):
     """a random script whose last copy is followed by mutations of one side"""
     for _ in range(50):
@@ -1786,7 +1810,7 @@ def shrink_scenario(ops, clause):
                 kw, small = trial, cand
     # simplify the constructions: the simplest class, no style, default path
     def simpler(op):
-        if op["cls"] not in ("Sensor", "Collection"):
+        if op["cls"] != "Sensor":
             yield {"op": "new", "cls": "Sensor", "args": {"pixel": [0, 0, 0]}, "sm": op.get("sm", 0),
                    "style": op.get("style")}
         if op.get("sm", 0) != 0:
@@ -1863,21 +1887,20 @@ def run(ctx):
         "collection with children (those move the children: search only); value tokens are exact encodings "
         "(bit patterns of arrays, quaternions rounded to 1e-12)",
     ]
-    props = os.path.join(COQ, "Props", "C18.v")
-    if os.path.exists(props):
-        built = ctx.build_props()
-        if ctx.tier == "thorough" and built:
-            ctx.coqchk("MV.Props.C18")
-        src = open(props).read()
+    built = ctx.build_props()
+    if ctx.tier == "thorough" and built:
+        ctx.coqchk("MV.Props.C18")
+    try:
+        src = open(os.path.join(COQ, "Props", "C18.v")).read()
         ctx.refuted = re.findall(r"^Theorem\s+(\w*_refuted\w*)", src, flags=re.M)
         ctx.partial = re.findall(r"^Theorem\s+(\w*_partial\w*)", src, flags=re.M)
-    else:
-        ctx.log("coq/Props/C18.v does not exist yet: building the executable model only")
-        built = ensure_model_built(ctx)
+    except OSError:
+        pass
+    model_ok = built or ensure_model_built(ctx)      # the executable model must run when a proof breaks
 
     def corr():
         errors = []
-        if built:
+        if model_ok:
             ph = probe_model(ctx)
             if ph is None:
                 return
@@ -1914,7 +1937,7 @@ def run(ctx):
                             "final_observation_[parent,children,slots,style,label,has_style,pending,cells]":
                                 cases[mid][1][-1]})
         ctx.log(f"correspondence: {len(cases)} scripts executed, running the model")
-        bad = model_check(ctx, ctx.tier, cases) if built else None
+        bad = model_check(ctx, ctx.tier, cases) if model_ok else None
         if bad is None:
             return
         ctx.log(f"correspondence: model and implementation differ on {len(bad)} of {len(cases)} scripts")
@@ -1945,6 +1968,13 @@ def run(ctx):
         big = bool(ctx.broken)
         n = ctx.n(300, 4000) * (6 if big else 1)
         stats, fails, errors = {}, [], []
+        for ops in FIXED_PROBES:
+            ctx.case(json.dumps(ops, sort_keys=True), True)
+            ctx.bump("search-fixed-probe")
+            try:
+                run_scenario(ops, stats)
+            except Fail as f:
+                fails.append((ops, f))
         for _ in range(n):
             if len(fails) >= 60:          # plenty of counterexamples: shrink them instead of collecting more
                 break
